@@ -103,6 +103,11 @@ pub trait Flavour: Sized + 'static {
     type Graph;
 
     fn node_new(k: usize, v: NVal) -> Self::Node;
+    /// the sync flavours: the node is created on a thread of its own (which then ends) and handed
+    /// back; the plain flavours (`!Send`): same as `node_new`
+    fn node_new_elsewhere(k: usize, v: NVal) -> Self::Node {
+        Self::node_new(k, v)
+    }
     fn key(n: &Self::Node) -> usize;
     fn prio(n: &Self::Node) -> u32;
     fn vid(n: &Self::Node) -> u64;
@@ -189,6 +194,10 @@ pub trait Flavour: Sized + 'static {
     fn g_ser_writer(g: &Self::Graph, wire: Wire, w: &mut dyn Write) -> Result<(), String>;
     fn g_de(bytes: &[u8], wire: Wire) -> Result<Self::Graph, String>;
     fn g_de_reader(r: &mut dyn Read, wire: Wire) -> Result<Self::Graph, String>;
+    /// `Deserialize::deserialize_in_place` into an existing container (what serde's in-place mode
+    /// and reload loops call): afterwards the container holds the document's graph, whatever it
+    /// held before
+    fn g_de_in_place(g: &mut Self::Graph, bytes: &[u8], wire: Wire) -> Result<(), String>;
     fn alt_round_trip(n: usize, edges: &[(usize, usize)], wire: Wire, key_style: u8) -> Result<(String, String), String>;
     /// `to_dot()` (and `to_dot_with_attr` without attributes, where the flavour has it) of a graph
     /// whose keys are `PortKey`s: distinct keys that may print alike
@@ -422,6 +431,16 @@ macro_rules! common_graph_items {
                 }
             }
         }
+        fn g_de_in_place(g: &mut Self::Graph, bytes: &[u8], wire: Wire) -> Result<(), String> {
+            use serde::Deserialize;
+            if wire.is_cbor() {
+                let mut d = serde_cbor::Deserializer::from_slice(bytes);
+                Deserialize::deserialize_in_place(&mut d, g).map_err(|e| e.to_string())
+            } else {
+                let mut d = serde_json::Deserializer::from_slice(bytes);
+                Deserialize::deserialize_in_place(&mut d, g).map_err(|e| e.to_string())
+            }
+        }
         fn g_de_reader(r: &mut dyn Read, wire: Wire) -> Result<Self::Graph, String> {
             match wire {
                 Wire::Cbor => serde_cbor::from_reader(r).map_err(|e| e.to_string()),
@@ -630,6 +649,16 @@ macro_rules! edges_of {
     };
 }
 
+macro_rules! elsewhere_impl {
+    ($m:ident, true) => {
+        fn node_new_elsewhere(k: usize, v: NVal) -> Self::Node {
+            let key = kin(k);
+            std::thread::spawn(move || gdsl::$m::Node::new(key, v)).join().expect("creating a node on another thread")
+        }
+    };
+    ($m:ident, false) => {};
+}
+
 macro_rules! with_capacity_impl {
     ($m:ident, yes) => {
         fn g_with_capacity(c: usize) -> Option<Self::Graph> {
@@ -644,7 +673,7 @@ macro_rules! with_capacity_impl {
 }
 
 macro_rules! directed_flavour {
-    ($ty:ident, $m:ident, $name:expr, $sync:expr, $cap:tt) => {
+    ($ty:ident, $m:ident, $name:expr, $sync:tt, $cap:tt) => {
         pub struct $ty;
         mod $m {
             use super::*;
@@ -713,6 +742,7 @@ macro_rules! directed_flavour {
             const NAME: &'static str = $name;
             const DIRECTED: bool = true;
             const SYNC: bool = $sync;
+            elsewhere_impl!($m, $sync);
             type Node = $m::N;
             type Graph = gdsl::$m::Graph<usize, NVal, EVal>;
             type AltGraph = gdsl::$m::Graph<PortKey, u8, u8>;
@@ -902,7 +932,7 @@ macro_rules! directed_flavour {
 }
 
 macro_rules! undirected_flavour {
-    ($ty:ident, $m:ident, $name:expr, $sync:expr, $dotattr:tt) => {
+    ($ty:ident, $m:ident, $name:expr, $sync:tt, $dotattr:tt) => {
         pub struct $ty;
         mod $m {
             use super::*;
@@ -969,6 +999,7 @@ macro_rules! undirected_flavour {
             const NAME: &'static str = $name;
             const DIRECTED: bool = false;
             const SYNC: bool = $sync;
+            elsewhere_impl!($m, $sync);
             type Node = $m::N;
             type Graph = gdsl::$m::Graph<usize, NVal, EVal>;
             type AltGraph = gdsl::$m::Graph<PortKey, u8, u8>;
